@@ -659,7 +659,10 @@ class Effect(DaeObject):
 
         bumpnode = node.find('.//%s//%s' % (collada.tag('extra'), collada.tag('texture')))
         if bumpnode is not None:
-            bumpmap = Map.load(collada, localscope, bumpnode)
+            try:
+                bumpmap = Map.load(collada, localscope, bumpnode)
+            except DaeMissingSampler2D as ex:
+                raise DaeBrokenRefError('Missing sampler %s for the bump map of effect %s' % (ex.samplerid, id))
         else:
             bumpmap = None
 
